@@ -437,3 +437,83 @@ pub fn gen_badplans(out: &mut dyn Write, seed: u64, thorough: bool) {
         writeln!(out, "# badplan_outcome_{} {}", k, v).unwrap();
     }
 }
+
+/// planner model vs implementation: `optimize(data, written, Ascii, list, modes)` through the hook,
+/// with the permutation each `sort_unstable_by_key` applied (the model does not fix the order of
+/// equal-cost plans; it checks the permutation sorts its own candidate list and follows it)
+pub fn gen_planner(out: &mut dyn Write, seed: u64, thorough: bool) {
+    use datamatrix::verif_hooks as vh;
+    let mut rng = Rng::new(seed ^ 0x18A);
+    let mut hist: BTreeMap<String, usize> = BTreeMap::new();
+    let n = if thorough { 40000 } else { 2500 };
+    let mut outcomes: BTreeMap<String, usize> = BTreeMap::new();
+    let mut calls = 0usize;
+    for k in 0..n {
+        let len = match k % 16 {
+            0 => 40 + rng.below(80),
+            1 => rng.below(4),
+            _ => rng.below(30),
+        };
+        let mut d = gen_data(&mut rng, len, &mut hist);
+        if k % 5 == 0 && !d.is_empty() {
+            // end-of-data situations: digit pairs and short native tails
+            let t = [&b"12"[..], b"7", b"AB", b"A", b"ab1", b"\xC8", b"A12", b"1234"][rng.below(8)];
+            d.extend_from_slice(t);
+        }
+        let modes = gen_modes(&mut rng);
+        let mask = gen_mask(&mut rng, &mut hist);
+        let mask = if mask == 0 { default_mask() } else { mask };
+        let written = match rng.below(6) {
+            0 => 1 + rng.below(4),
+            1 => rng.below(60),
+            2 => {
+                // land the message near a capacity of the list
+                let caps: Vec<usize> = list_from_mask(mask).iter().map(|s| vh::size_info(s).num_data_codewords).collect();
+                let c = caps[rng.below(caps.len())];
+                c.saturating_sub(d.len() / 2 + rng.below(4))
+            }
+            _ => 0,
+        };
+        let list = list_from_mask(mask);
+        let d2 = d.clone();
+        vh::prune_log_enable(true);
+        let _ = vh::prune_perm_take();
+        let r = guarded(move || vh::optimize(&d2, written, datamatrix::EncodationType::Ascii, &list, modes_from_bits(modes)));
+        let perms = vh::prune_perm_take();
+        let _ = vh::prune_log_take();
+        vh::prune_log_enable(false);
+        let tr = vh::planner_trace();
+        calls += perms.len();
+        let ps = if perms.is_empty() {
+            "_".to_string()
+        } else {
+            perms
+                .iter()
+                .map(|p| if p.is_empty() { "-".to_string() } else { p.iter().map(|i| i.to_string()).collect::<Vec<_>>().join(",") })
+                .collect::<Vec<_>>()
+                .join("|")
+        };
+        let ans = match r {
+            Ok(Some(p)) => {
+                *outcomes.entry("plan".into()).or_default() += 1;
+                format!("{}:{}:{}:{}", plan_str(&Some(p)), tr.chosen_cost_ceil_12.unwrap_or(0), tr.steps, tr.max_live)
+            }
+            Ok(None) => {
+                *outcomes.entry("none".into()).or_default() += 1;
+                format!("none:{}:{}", tr.steps, tr.max_live)
+            }
+            Err(_) => {
+                *outcomes.entry("panic".into()).or_default() += 1;
+                "panic".into()
+            }
+        };
+        writeln!(out, "M optimize {} {} {} {} {} => {}", modes, mask_hex(mask), written, hex(&d), ps, ans).unwrap();
+    }
+    for (k, v) in &outcomes {
+        writeln!(out, "# planner_outcome_{} {}", k, v).unwrap();
+    }
+    writeln!(out, "# planner_prune_calls {}", calls).unwrap();
+    for (k, v) in &hist {
+        writeln!(out, "# {} {}", k, v).unwrap();
+    }
+}
